@@ -297,6 +297,10 @@ class Interp:
                 "append", "extend", "insert", "pop", "get", "items", "values", "keys", "setdefault", "update", "copy",
                 "clear", "reverse",
             ):
+                if isinstance(selfobj, dict) and f.__name__ == "get" and args and not deep_concrete(unwrap(args[0])):
+                    from .models_lib import sym_dict_get
+
+                    return sym_dict_get(selfobj, *args)
                 if isinstance(selfobj, dict) and f.__name__ in ("get", "setdefault", "pop") and args and is_sym(args[0]):
                     raise Unsupported("dict.%s with symbolic key" % f.__name__)
                 return f(*args, **kwargs)
@@ -857,8 +861,10 @@ class Interp:
             r = h(self, obj, idx)
             if r is not NOT_HANDLED:
                 return r
-        if isinstance(obj, dict) and is_sym(unwrap(idx)):
-            raise Unsupported("dict lookup with symbolic key")
+        if isinstance(obj, dict) and not deep_concrete(unwrap(idx)):
+            from .models_lib import sym_dict_get
+
+            return sym_dict_get(obj, idx, strict=True)
         idx = unwrap(idx)
         if isinstance(obj, (bytes, str)) and (
             is_sym(idx) or isinstance(idx, slice) and any(is_sym(x) for x in (idx.start, idx.stop, idx.step))
